@@ -45,6 +45,6 @@ def sample(c, o):
     return {'prog': c['prog'], 'env': c['env'], 'reported_first_ops': (o.get('plain') or {}).get('ops', [])[:3]}
 
 
-LEVEL_TEXT = 'see DESIGN.md C02'
-LEVEL_NOTE = 'see DESIGN.md section 9'
+LEVEL_TEXT = "Coq theorems over the Core model's layered listing: for a well-formed forest the listing is duplicate-free and contains exactly the nodes of depth < 4999 (the documented limit), is sorted by relation depth, lists every parent before its children; for every build program the listed leaves are a permutation of the leaves added (sub-circuits expanded in place; unconditional for the current generated class table), and every entry is listed after the entry its relation refers to, through nesting. spec_ok judges completeness, causality and stability on the implementation's listing."
+LEVEL_NOTE = 'Trusted: Coq kernel, translator (Gen/Classes.v: copy() faithfulness is an Example over the generated table), hand-written Core model tied by correspondence. Stability of listing twice is an observation (c_stable), trivial in the functional model. No axioms.'
 TECHNIQUE = 'Coq proof over an executable model + correspondence evaluated by vm_compute'
